@@ -274,8 +274,11 @@ pub fn synth_delivered(uid: Uid) {
         // the wrapper recognised its synthetic token: not a polled event
         s.life.pes.pop();
         let ok = s.life.synth_returned;
+        let layout = s.layout_changed_at != 0 && s.layout_changed_at == w.dispatch_no;
         if !ok {
             w.alarm("C14.synthetic", "synthetic-without-request", format!("source #{} got its synthetic token although before_sleep returned none in this dispatch", uid));
+            let cu = if layout { "composite-subtoken-layout-changed-in-dispatch" } else { "event-under-synthetic-token" };
+            w.alarm("C01.misrouted", cu, format!("source #{}: an event arrived under the token of its synthetic events although none was requested: it belongs to another sub-source", uid));
         }
     })
 }
